@@ -327,7 +327,9 @@ func oracleC10(cx *CheckCtx, runs []*CaseRun) []Finding {
 		if o.Kind != OpRender {
 			continue
 		}
-		targets := []string{"fresh", "existing", "missingdir", "isdir"}
+		// (existing-long / readonly-long: the old content is much LONGER than the new output, the
+		// second one with the write bits cleared — what is left of it afterwards must be nothing)
+		targets := []string{"fresh", "existing", "missingdir", "isdir", "existing-long", "readonly-long"}
 		if _, err := os.Stat("/dev/full"); err == nil {
 			targets = append(targets, "devfull") // opens fine, every write fails with ENOSPC
 		}
@@ -341,6 +343,12 @@ func oracleC10(cx *CheckCtx, runs []*CaseRun) []Finding {
 			case "existing":
 				before = "// previously generated, good content\n"
 				os.WriteFile(path, []byte(before), 0o644)
+			case "existing-long", "readonly-long":
+				before = "// previously generated, good content\n" + strings.Repeat("// a long tail of old declarations\n", 8000)
+				os.WriteFile(path, []byte(before), 0o644)
+				if target == "readonly-long" {
+					os.Chmod(path, 0o444)
+				}
 			case "missingdir":
 				path = filepath.Join(dir, "nope", "out.go")
 			case "isdir":
@@ -382,12 +390,13 @@ func oracleC10(cx *CheckCtx, runs []*CaseRun) []Finding {
 			}
 			eff := ""
 			switch {
-			case target == "existing" && string(after) == before:
+			case strings.HasPrefix(target, "existing") && string(after) == before, target == "readonly-long" && string(after) == before:
 				eff = ""
 			case rerr == nil && target != "isdir":
 				eff = "fswrite:" + esc(string(after))
 			}
-			fsOK := target == "fresh" || target == "existing"
+			// (a read-only target can be overwritten by root only)
+			fsOK := target == "fresh" || target == "existing" || target == "existing-long" || (target == "readonly-long" && os.Geteuid() == 0)
 			exp := expect{cr: cr, what: "Save to " + target, got: class + " " + eff,
 				line: fxLine{kind: "save", noFormat: noFormat, mis: mis, raw: raw, fmtOK: fmtOK, fmtOut: fmtOut, writerOK: true, fsOK: fsOK}}
 			exps = append(exps, exp)
